@@ -112,6 +112,23 @@ theorem ascii_sync_encOk (e : Enc) (r : Rules) (hs : AsciiSync e)
     (hp : ∀ x, e.valid x = false → e.valid (e.prefilter x) = true) : EncOk e r :=
   asciiSync_encOk e r hs hp
 
+/-! ### the URI validator (`rules::uri_validator`, `relative_uri_validator`; model in `Uri.lean`) -/
+
+/-- "every URI scheme is one the rules allow": for the model of `uri_parser`/`uri_validator_functor`, with the scheme
+expression an arbitrary predicate — if an accepted text has a scheme (letter, then letters/digits/`+-.`, then `:`),
+the validator is not the relative one and the scheme expression matched exactly that scheme; an `absolute_uri`
+validator accepts only texts that have one. -/
+theorem uri_validator_scheme_whitelist (k : Uri.Kind) (schemeOk : Bytes → Bool) (v : Bytes)
+    (h : Uri.validator k schemeOk v = true) :
+    (∀ sch, Uri.schemeOf v = some sch → k ≠ .relative ∧ schemeOk sch = true) ∧
+    (k = .full → ∃ sch, Uri.schemeOf v = some sch ∧ schemeOk sch = true) :=
+  Uri.validator_scheme k schemeOk v h
+
+/-- non-vacuity: `http://a/?x=1&amp;y=2#f` is accepted when `http` is allowed, and has that scheme -/
+example : Uri.validator .full (fun s => s == [104, 116, 116, 112])
+    [104, 116, 116, 112, 58, 47, 47, 97, 47, 63, 120, 61, 49, 38, 97, 109, 112, 59, 121, 61, 50, 35, 102] = true := by decide +kernel
+example : Uri.schemeOf [104, 116, 116, 112, 58, 47, 47, 97, 47] = some [104, 116, 116, 112] := by decide +kernel
+
 /-! `HtmlCaseOk` cannot be dropped for the *abstract* `Rules` type (whose `tagKind` is an arbitrary function):
 with `b` opening_and_closing but `B` stand_alone (impossible for a real HTML-mode `rules` object, whose map is
 keyed case-insensitively) the output `<b><B></b>` of `<b><x><B></x></b>` does not validate. -/
